@@ -157,12 +157,20 @@ class SPDomain(EventDomain):
             return ((st.with_(rB=rb, rT=rt), consts),)
         if f in LOCAL:
             note = 'plate-fixed joint table self.%s replaced (%s, line %d): derived state not recomputed' % (f, self.fi.name, stmt.lineno)
-            tables = st.tables | {'stale:' + f}
+            tables = st.tables | {'stale:' + c for c in self.an.dependents(f)}
             return ((st.with_(dirty=st.dirty | {note}, tables=tables), consts),)
-        if f in INIT_TABLES and whole:
-            src_f = INIT_TABLES[f]
-            ok = value is not None and ('self.' + src_f) in src(value)
-            tables = frozenset(t for t in st.tables if t != 'stale:' + src_f) if ok else st.tables
+        caches = self.an.caches
+        if f in caches and whole:
+            # a cache of the plate-fixed joints is refreshed by a value computed from FRESH sources, or reset to a constant
+            srcs = self.an.field_reads(self.fi, value) if value is not None else set()
+            reset = value is not None and isinstance(value, ast.Constant)
+            fresh = bool(srcs & caches[f]) and not any(('stale:' + s_) in st.tables for s_ in srcs)
+            if reset or fresh:
+                tables = frozenset(t for t in st.tables if t != 'stale:' + f)
+            elif srcs & (caches[f] | set(LOCAL)):
+                tables = st.tables | {'stale:' + f}         # refreshed from a source that is itself stale
+            else:
+                tables = st.tables
             return ((st.with_(tables=tables), consts),)
         return (state,)
 
@@ -353,6 +361,71 @@ class SPAnalysis:
                 if isinstance(n, ast.Assign) and isinstance(n.value, ast.Lambda) and isinstance(n.targets[0], ast.Name):
                     d[n.targets[0].id] = n.value
             self.lambdas[fi.key] = d
+        self._discover_caches()
+
+    # ------------------------------------------------------------ caches of the plate-fixed joint tables
+    def field_reads(self, fi, expr, seen=None):
+        """self.<field> names an expression of method fi reads, through the method's local definitions."""
+        seen = set() if seen is None else seen
+        defs = self._defs.get(fi.key)
+        if defs is None:
+            defs = {}
+            for n in walk_own(fi.node):
+                if isinstance(n, ast.Assign):
+                    for t in n.targets:
+                        for x in (t.elts if isinstance(t, (ast.Tuple, ast.List)) else [t]):
+                            b = x
+                            while isinstance(b, ast.Subscript):
+                                b = b.value
+                            if isinstance(b, ast.Name):
+                                defs.setdefault(b.id, []).append(n.value)
+            self._defs[fi.key] = defs
+        out = set()
+        for n in ast.walk(expr):
+            if isinstance(n, ast.Attribute) and isinstance(n.value, ast.Name) and n.value.id == 'self':
+                out.add(n.attr)
+            elif isinstance(n, ast.Name) and n.id in defs and n.id not in seen:
+                seen.add(n.id)
+                for d in defs[n.id]:
+                    out |= self.field_reads(fi, d, seen)
+        return out
+
+    def _discover_caches(self):
+        """Instance fields that store a value computed only from the plate-fixed joint tables (directly or through another
+        such field): {field: source fields}.  Fields recomputed by _IKHelper (they also depend on the pose) are not caches."""
+        self._defs = {}
+        stores = []
+        for name, fi in self.sp.methods.items():
+            for n in walk_own(fi.node):
+                if isinstance(n, ast.Assign) and len(n.targets) == 1 and self_field(n.targets[0]) and isinstance(n.targets[0], ast.Attribute):
+                    stores.append((fi, self_field(n.targets[0]), n.value))
+        caches = {}
+        roots = set(LOCAL)
+        changed = True
+        while changed:
+            changed = False
+            for fi, f, v in stores:
+                if f in roots or f in DERIVED or f in (REL, POSE_B, POSE_T) or isinstance(v, ast.Constant):
+                    continue
+                reads = self.field_reads(fi, v)
+                srcs = reads & (roots | set(caches))
+                srcs.discard(f)
+                # pure function of the tables: nothing else of the object's mutable kinematic state is read
+                if srcs and not (reads & (set(DERIVED) | {REL, POSE_B, POSE_T})):
+                    if not srcs <= caches.get(f, set()):
+                        caches.setdefault(f, set()).update(srcs)
+                        changed = True
+        self.caches = caches
+
+    def dependents(self, f):
+        out, todo = set(), [f]
+        while todo:
+            x = todo.pop()
+            for c, srcs in self.caches.items():
+                if x in srcs and c not in out:
+                    out.add(c)
+                    todo.append(c)
+        return out
 
     def summary(self, fi, st, consts, ptok):
         """exit states (shared part) of running fi from the object state `st` with constant / token bindings"""
